@@ -286,7 +286,7 @@ def worker(args):
             tests = [os.path.join("buidl", "test", t) for t in TESTS_FOR.get(os.path.basename(rel), [])]
             tests = [t for t in tests if os.path.exists(os.path.join(tree, t))]
             if tests:
-                trc, tout = sh([PY, "-m", "pytest", "-q", "-x", "-p", "no:cacheprovider", "--timeout=600"]
+                trc, tout = sh([PY, "-m", "pytest", "-q", "-x", "-p", "no:cacheprovider", "-p", "no:rerunfailures", "--timeout=600"]
                                + tests + ["-k", "not socket_guard"],
                                env=dict(os.environ, PYTHONPATH=tree, PYTHONDONTWRITEBYTECODE="1"), timeout=1500, cwd=tree)
                 r["own_tests_exit"] = trc
@@ -358,7 +358,7 @@ def main():
            "survived_check_and_own_tests": len(surv_tests), "seconds": round(time.time() - t0),
            "uncovered_lines": uncovered,
            "survivors": sorted(surv_tests, key=lambda r: (r["file"], r["line"])),
-           "survivors_killed_by_own_tests": [dict(file=r["file"], line=r["line"], desc=r["desc"]) for r in surv if r not in surv_tests],
+           "survivors_killed_by_own_tests": [dict(file=r["file"], line=r["line"], desc=r["desc"], tail=r.get("own_tests_tail", "")) for r in surv if r not in surv_tests],
            "odd": odd[:50]}
     os.makedirs(os.path.join(VERIF, "mutation"), exist_ok=True)
     json.dump(out, open(os.path.join(VERIF, "mutation", pid + ".json"), "w"), indent=1)
